@@ -207,6 +207,11 @@ func c05Gen(rng *verifsim.RNG, idx int, tier string) *Plan {
 			q.Faults = append(q.Faults, Fault{Seam: "write", Key: []string{"mc", ""}[rng.Intn(2)], From: int64(rng.Dur(time.Second, time.Duration(q.Horizon*3/4))), Count: 1,
 				Err: []string{"ENETDOWN", "ENOBUFS", "EINVAL"}[rng.Intn(3)]})
 			q.Class += "+failing-send"
+		} else if rng.Bool(0.3) {
+			// ... or the very first RA of a connection (the one sent to see whether
+			// the interface can be used at all) fails for a transient reason
+			q.Faults = append(q.Faults, Fault{Seam: "write", Key: "mc", N: []int{1, 1, 2, 3}[rng.Intn(4)], Err: []string{"ENETDOWN", "ENOBUFS", "EINVAL"}[rng.Intn(3)]})
+			q.Class += "+failing-initial-send"
 		}
 		return q
 	}
@@ -370,7 +375,9 @@ func c05Recurrence(info *runInfo, res *verifsim.Result) {
 	// dial attempt fail in this population), so the same bound holds from any
 	// multicast RA to the next one, whichever connection sends it, up to the stop
 	if stopT != 0 {
-		var all []int64
+		// (from the start of the daemon on: an advertiser that never gets its
+		// first RA out - or dies trying - is not advertising either)
+		all := []int64{0}
 		for _, w := range h.writes {
 			if w.ifn == spec.Name && w.mc() && w.t <= stopT && w.err == "" && w.marshalErr == "" {
 				all = append(all, w.t)
@@ -382,6 +389,13 @@ func c05Recurrence(info *runInfo, res *verifsim.Result) {
 				res.Violate("C05.recur", "gap-across", "max_interval=%s: no multicast RA between %s and %s (generations: %d)", time.Duration(mx), ms(all[i-1]), ms(all[i]), len(h.gens))
 				break
 			}
+		}
+	}
+	// nothing this population injects is a reason to stop advertising for good
+	for i := range h.ev {
+		e := &h.ev[i]
+		if e.K == "task.exit" && taskIface(e.S) == spec.Name && (stopSeq == 0 || e.Seq < stopSeq) {
+			res.Violate("C05.recur", "stopped", "max_interval=%s: the advertiser ended at %s although nobody stopped it: %s (only transient faults were injected: unsolicited RAs must go on)", time.Duration(mx), ms(e.T), e.Err)
 		}
 	}
 	res.Nontrivial = n >= 5
